@@ -535,6 +535,9 @@ class ScriptedRNG:
     """Replay generator: returns the solver model's draws in order (real numpy value types)."""
 
     def __init__(self, draws, fallback_seed=12345):
+        if isinstance(draws, dict):  # a whole witness: take its draws and its seed for the fallback generator
+            fallback_seed = int(draws.get("random_seed", fallback_seed))
+            draws = draws.get("draws", [])
         self.draws = list(draws)
         self.i = 0
         self._fb = np.random.default_rng(fallback_seed)
